@@ -271,7 +271,7 @@ class NetAddr():
         for e in elements:
             if isinstance(e[0], str):
                 elist.append((self._calc_msg_dgram_size(e), e))
-            elif isinstance(e[0], (int, float)):  # bundle
+            elif isinstance(e[0], (int, float, type(None))):  # bundle
                 elist.append((self._calc_bndl_dgram_size(e[1:]), e))
             else:
                 raise ValueError(
@@ -299,7 +299,7 @@ class NetAddr():
             res += 4  # Element size bytes.
             if isinstance(e[0], str):  # message
                 res += self._calc_msg_dgram_size(e)
-            elif isinstance(e[0], (int, float)):  # bundle
+            elif isinstance(e[0], (int, float, type(None))):  # bundle
                 res += self._calc_bndl_dgram_size(e[1:])
             else:
                 raise ValueError(
@@ -316,8 +316,13 @@ class NetAddr():
             elif isinstance(val, (bytes, bytearray, memoryview)):
                 res += self._pad4(len(val)) + 4  # Blob size bytes.
             elif isinstance(val, list):
-                # Arrays are messages converted to blobs.
-                res += self._calc_msg_dgram_size(val) + 4  # Blob size bytes.
+                # Arrays are messages or bundles converted to blobs.
+                if not val:
+                    res += 4  # Empty lists are sent as 0.
+                elif isinstance(val[0], str):
+                    res += self._calc_msg_dgram_size(val) + 4  # Blob size bytes.
+                else:
+                    res += self._calc_bndl_dgram_size(val[1:]) + 4
             else:
                 res += 4  # Everything else (sent by sc3, no doubles).
         return res
